@@ -17,7 +17,7 @@ from oracles import mic as omic
 
 ID = "C09"
 LEVEL = "exploration"
-RULE = ("cases = batches of random systems (1-30 atoms shaped as gases, layers, chains, blobs in orthogonal/skewed/"
+RULE = ("cases = batches of random systems (1-30 atoms shaped as gases, layers, chains, blobs, lattices and 'impurity' cells - one uniquely large atom bonded to its own image - in orthogonal/skewed/"
         "sheared cells of 0.5-30 A, all 8 pbc masks, thresholds 0.3-3.5 A, covalent/vdw/custom radii, atoms inside the "
         "cell or shifted by up to +-5 lattice vectors), each judged against the cycle-rank oracle and re-evaluated under "
         "supercell / basis change / rigid motion / permutation / single-atom lattice shifts; installed binding, fresh "
@@ -145,6 +145,38 @@ def worker_init(lane):
 VDW_OK = [1, 6, 7, 8, 13, 14, 16, 22, 26, 29, 30, 47, 55, 74, 79, 82]
 
 
+HEAVY = [19, 37, 38, 55, 56]
+
+
+def make_impurity_system(rng):
+    """One atom with a uniquely large radius that bonds to its OWN periodic image along one or two short cell vectors,
+    decorated with a few light atoms: the self-image bond is the only link along those directions."""
+    from ase import Atoms
+    from ase.data import covalent_radii
+    zh = int(rng.choice(HEAVY))
+    nl = int(rng.integers(1, 5))
+    zl = rng.choice([1, 6, 7, 8], size=nl)
+    thr = float(rng.uniform(0.3, 1.5))
+    r1 = covalent_radii[zh]
+    r2 = max(covalent_radii[z] for z in zl)
+    lengths = rng.uniform(9.0, 14.0, size=3)
+    k = int(rng.integers(1, 3))
+    for ax in rng.choice(3, size=k, replace=False):
+        lengths[ax] = rng.uniform(thr + r1 + r2 + 0.05, thr + 2 * r1 - 0.05)
+    cell = np.diag(lengths)
+    if rng.random() < 0.5:
+        cell = cell @ cells.random_rotation(rng).T
+    centre = rng.random(3) @ cell
+    pos = [centre]
+    for z in zl:
+        d = rng.normal(size=3); d /= np.linalg.norm(d)
+        pos.append(centre + d * (r1 + covalent_radii[z] + rng.uniform(-0.3, min(0.2, thr - 0.05))))
+    pbc = np.array(cells.PBCS[int(rng.integers(1, 8))])
+    a = Atoms(numbers=[zh] + [int(z) for z in zl], positions=np.array(pos), cell=cell, pbc=pbc)
+    a.wrap()
+    return a, thr
+
+
 def make_system(rng):
     from ase import Atoms
     shape = ["gas", "layer", "chain", "blob", "lattice"][int(rng.integers(5))]
@@ -218,10 +250,16 @@ def run_direct(case, rec):
     keys, n_exec, sample = set(), 0, None
     classes = {"shape": [], "cell_kind": [], "pbc": [], "expected": [], "radii": [], "presentation": []}
     for it in range(case["n"]):
-        atoms, shape, kind = make_system(rng)
-        n = len(atoms)
-        thr = float(rng.uniform(0.3, 3.5)) if rng.random() < 0.6 else float(rng.uniform(0.3, 1.0))
-        rmode = ["covalent", "vdw", "custom"][int(rng.integers(3))]
+        if rng.random() < 0.12:
+            atoms, thr = make_impurity_system(rng)
+            shape, kind = "impurity", "orthogonal"
+            n = len(atoms)
+            rmode = "covalent"
+        else:
+            atoms, shape, kind = make_system(rng)
+            n = len(atoms)
+            thr = float(rng.uniform(0.3, 3.5)) if rng.random() < 0.6 else float(rng.uniform(0.3, 1.0))
+            rmode = ["covalent", "vdw", "custom"][int(rng.integers(3))]
         radii = rmode if rmode != "custom" else rng.uniform(0.3, 1.8, size=n)
         rr = resolve_radii(radii, atoms.get_atomic_numbers())
         cutoff = thr + 2 * rr.max()
